@@ -95,9 +95,9 @@ def c20_cli_priority(rep, tier, seed):
         if choices:
             return list(choices)
         if typ is float:
-            return [default, 0.5]
+            return [default, 0.5, 0.0]  # 0.0 / 0: falsy values given explicitly are still given
         if typ is int:
-            return [default, 10]
+            return [default, 10, 0]
         return [default, "numba"] if name == "language" else [default]
 
     def run(given):
@@ -121,6 +121,7 @@ def c20_cli_priority(rep, tier, seed):
             cases.append({n: v})
     for a, b in itertools.combinations(names, 2):
         cases.append({a: values(a)[0], b: values(b)[-1]})
+        cases.append({a: values(a)[-1], b: values(b)[0]})
     n_ok = 0
     for given in cases:
         try:
@@ -1179,6 +1180,18 @@ for k in range(12):
     out.append(naming.integral_name(a, "cell", 0, (k % 3,), "p"))
     del mesh, P1, P2, V, f, e, a
     gc.collect()
+# expressions over two meshes: the meshes are created in the opposite order in the process with history
+def two_mesh(order):
+    ms = {}
+    for tag in order:
+        ms[tag] = ufl.Mesh(basix.ufl.element("Lagrange", "triangle", 1, shape=(2,)))
+    VA = ufl.FunctionSpace(ms["A"], basix.ufl.element("Lagrange", "triangle", 1))
+    VB = ufl.FunctionSpace(ms["B"], basix.ufl.element("Lagrange", "triangle", 2))
+    fA, gB = ufl.Coefficient(VA), ufl.Coefficient(VB)
+    return [fA * gB.dx(0), gB * fA.dx(1) + fA]
+for e in two_mesh("BA" if history else "AB"):
+    out.append(naming.expression_name((e, pts), "p"))
+    out.append(naming.compute_signature([(e, pts)], "p"))
 print(json.dumps(out))
 '''
     res = {}
@@ -1191,7 +1204,7 @@ print(json.dumps(out))
         res[h] = json.loads(r.stdout.strip().splitlines()[-1])
     same = res[0] == res[1]
     distinct = len(set(res[0])) == len(set(res[0][i] for i in range(len(res[0]))))
-    name = "names of 36 sampled requests are equal in a fresh process and in a process that named and released 120 other objects before"
+    name = "names of 40 sampled requests (incl. expressions over two meshes created in the opposite order) are equal in a fresh process and in a process that named and released 120 other objects before"
     if same:
         rep.ob(name, "proved", "runtime-contract", "bounded")
     else:
@@ -1200,7 +1213,7 @@ print(json.dumps(out))
                       dict(obligation=name, request=k, fresh=res[0][k], with_history=res[1][k],
                            how_to_replay="checks/finite.py::c13_cross_process child script with history 0 / 1"))
     # different integrands must not share a name (k%4 classes x P1/P2)
-    exprs = res[0][0::3]
+    exprs = res[0][0:36:3]
     classes = {}
     for k, nm in enumerate(exprs):
         classes.setdefault(nm, set()).add((k % 4, k % 2))
